@@ -13,6 +13,11 @@ import Reduino.Lang.Tr
     * every assignment to a name has the type the name was declared with (first assignment wins);
     * for-range: the loop variable is not assigned anywhere in the program, is distinct from enclosing loop variables,
       is read only inside its own loop; the body assigns no name occurring in the range argument;
+    * tuple assignment `x0, x1, … = e0, e1, …` (W5; top level, nested blocks, main loop): two or more targets, as many right-hand
+      sides, every right-hand side well typed, every target ALREADY declared with the type inferred for its right-hand side
+      (a first assignment by tuple takes other paths of the transpiler: the all-new-at-global-scope form and the local
+      declarations of finding F17 are outside); the targets are assigned names, so they are never `for` variables; the names
+      `__tmp_assign_<n>` are reserved: a program with a tuple assignment has no assigned name and no declared name of that shape;
     * `mon.write` of int-typed expressions (a bool prints as True/False under CPython and 1/0 on the device).
 -/
 namespace Reduino.Lang
@@ -36,6 +41,8 @@ def Stmt.assigned : Stmt → List String
   | .seq a b => a.assigned ++ b.assigned
   | .assign x _ => [x]
   | .aug x _ _ => [x]
+  | .tuple _ xs _ => xs
+  | .ctuple _ _ xs _ => xs
   | .ifs _ t e => t.assigned ++ e.assigned
   | .whileLoop _ b => b.assigned
   | .forRange _ _ b => b.assigned
@@ -65,6 +72,11 @@ def Stmt.okNested (allAssigned : List String) (te : C.TyEnv) : Stmt → Bool
   | .seq a b => a.okNested allAssigned te && b.okNested allAssigned te
   | .assign x e => e.wt te && (te.lookup x == some (inferTy te e))
   | .aug x _ e => e.wt te && (te.lookup x == some .int)
+  | .tuple _ xs es =>
+    2 ≤ xs.length && xs.length == es.length && es.all (fun e => e.wt te) &&
+    okTargets te xs es &&
+    allAssigned.all (fun x => !isTmp x) && te.all (fun d => !isTmp d.1)
+  | .ctuple _ _ _ _ => false
   | .ifs c t e => c.wt te && t.okNested allAssigned te && e.okNested allAssigned te
   | .whileLoop c b => c.wt te && b.okNested allAssigned te
   | .forRange i n b =>
